@@ -593,6 +593,9 @@ class Manager:
         # TODO: Refactor this method.
 
         if event.cancelled:
+            # never dispatched, but the event that caused it must not wait for it
+            event.complete = False
+            self._effectDone(event)
             return
 
         if event.complete:
@@ -700,6 +703,9 @@ class Manager:
             channels = getattr(event, 'success_channels', event.channels)
             self.fire(event.child('success', event, event.value.value), *channels)
 
+        self._effectDone(event)
+
+    def _effectDone(self, event):
         while True:
             # cause attributes indicates interest in completion event
             cause = getattr(event, 'cause', None)
